@@ -61,7 +61,7 @@ def main():
         props = [c["property_id"] for c in json.loads((VERIF / "MANIFEST.json").read_text())["checks"]]
         for pid in props:
             ev = tmp / f"ev-{pid}"
-            e2 = dict(os.environ, GSVERIF_EVIDENCE_DIR=str(ev), PYTHONPATH=str(VERIF))
+            e2 = dict(os.environ, GSVERIF_EVIDENCE_DIR=str(ev), PYTHONPATH=str(VERIF), GSVERIF_JOBS=os.environ.get("GSVERIF_JOBS", "4"))
             rc, o = sh(f"timeout 1700 {PY} -m gsverif check {pid} --tier {tier} --repo {wt}", cwd=str(VERIF), env=e2, timeout=1800)
             if rc != 0:
                 fired[pid] = {"exit": rc, "findings": [l[:300] for l in o.splitlines() if l.startswith(("FINDING", "ANALYSIS-ERROR"))][:5]}
